@@ -24,6 +24,7 @@ EXPLANATION = (
     "on both the normal and the ValueError path inside the loop body, and sensor.read is called nowhere else."
     ' R2 is a path rule per loop iteration (a failing item stores None and the loop goes on) and forbids eager package-defined conversions (f-string / str() of a sensor object) inside the isolating handler.'
     ' len() applied to a label-table lookup requires every value of every table the dict expression may denote to be sized (R1 len-of-label); R2 accepts a path on which a test established that the id is already present.'
+    ' (R1 index-loop) a range()-driven subscript of a constant sequence stays inside it for every register value the call sites can pass.'
 )
 
 # calls that cannot raise on the values decoders pass them
